@@ -5,7 +5,7 @@ id="$1"; x="$2"; dest="$3"; pkg="$4"; rx="$5"; shift 5
 checks="${*:-$id}"
 lc=$(echo $id | tr A-Z a-z)
 # wave 2 (letters C, D) lives in /tmp/seed2-<id>(-out)/{A,B}
-case "$x" in C) out=/tmp/seed2-$lc-out/A; wt=/tmp/seed2-$lc;; D) out=/tmp/seed2-$lc-out/B; wt=/tmp/seed2-$lc;; E) out=/tmp/seed3-$lc-out/A; wt=/tmp/seed3-$lc;; F) out=/tmp/seed3-$lc-out/B; wt=/tmp/seed3-$lc;; *) out=/tmp/seed-$lc-out/$x; wt=/tmp/seed-$lc;; esac
+case "$x" in C) out=/tmp/seed2-$lc-out/A; wt=/tmp/seed2-$lc;; D) out=/tmp/seed2-$lc-out/B; wt=/tmp/seed2-$lc;; E) out=/tmp/seed3-$lc-out/A; wt=/tmp/seed3-$lc;; F) out=/tmp/seed3-$lc-out/B; wt=/tmp/seed3-$lc;; G) out=/tmp/seed4-$lc-out/A; wt=/tmp/seed4-$lc;; H) out=/tmp/seed4-$lc-out/B; wt=/tmp/seed4-$lc;; *) out=/tmp/seed-$lc-out/$x; wt=/tmp/seed-$lc;; esac
 cd "$(dirname "$0")/.."
 echo "##### $id-$x"
 tools/seed_verify.sh $out $wt $dest go test -count=1 -vet=off -run "$rx" $pkg 2>&1 | tail -12
